@@ -36,7 +36,7 @@ func (in *Interp) callBuiltin(name string, args []Value, cc *ssa.CallCommon, isD
 				t := under(cc.Args[0].Type()).(*types.Pointer).Elem().Underlying().(*types.Array)
 				return c.BVConst(uint64(t.Len()), 64)
 			}
-			return c.BVConst(uint64(len(x.c.sub)), 64)
+			return c.BVConst(uint64(x.c.length()), 64)
 		}
 	case "cap":
 		switch x := args[0].(type) {
@@ -54,7 +54,7 @@ func (in *Interp) callBuiltin(name string, args []Value, cc *ssa.CallCommon, isD
 				t := under(cc.Args[0].Type()).(*types.Pointer).Elem().Underlying().(*types.Array)
 				return c.BVConst(uint64(t.Len()), 64)
 			}
-			return c.BVConst(uint64(len(x.c.sub)), 64)
+			return c.BVConst(uint64(x.c.length()), 64)
 		}
 	case "append":
 		s := args[0].(Slice)
@@ -62,7 +62,7 @@ func (in *Interp) callBuiltin(name string, args []Value, cc *ssa.CallCommon, isD
 		switch y := args[1].(type) {
 		case Slice:
 			for i := 0; i < y.len; i++ {
-				add = append(add, in.load(y.arr.sub[y.off+i]))
+				add = append(add, in.load(y.arr.at(y.off+i)))
 			}
 		case *Str:
 			for _, b := range y.b {
@@ -83,7 +83,7 @@ func (in *Interp) callBuiltin(name string, args []Value, cc *ssa.CallCommon, isD
 				n = d.len
 			}
 			for i := 0; i < n; i++ {
-				src = append(src, in.load(y.arr.sub[y.off+i]))
+				src = append(src, in.load(y.arr.at(y.off+i)))
 			}
 		case *Str:
 			n := len(y.b)
@@ -95,7 +95,7 @@ func (in *Interp) callBuiltin(name string, args []Value, cc *ssa.CallCommon, isD
 			}
 		}
 		for i, v := range src {
-			in.store(d.arr.sub[d.off+i], v)
+			in.store(d.arr.at(d.off+i), v)
 		}
 		return c.BVConst(uint64(len(src)), 64)
 	case "delete":
@@ -156,7 +156,7 @@ func (in *Interp) callBuiltin(name string, args []Value, cc *ssa.CallCommon, isD
 		case Slice:
 			z := in.zero(under(cc.Args[0].Type()).(*types.Slice).Elem())
 			for i := 0; i < x.len; i++ {
-				in.store(x.arr.sub[x.off+i], in.copyVal(z))
+				in.store(x.arr.at(x.off+i), in.copyVal(z))
 			}
 		}
 		return nil
@@ -185,16 +185,16 @@ func (in *Interp) callBuiltin(name string, args []Value, cc *ssa.CallCommon, isD
 		if s.cap == 0 {
 			return Ptr{&Cell{epoch: in.epoch, v: in.byteConst[0], sub: nil}}
 		}
-		in.elemOwner[s.arr.sub[s.off]] = elemRef{s.arr, s.off}
-		return Ptr{s.arr.sub[s.off]}
+		in.elemOwner[s.arr.at(s.off)] = elemRef{s.arr, s.off}
+		return Ptr{s.arr.at(s.off)}
 	case "StringData":
 		s := args[0].(*Str)
 		sl := in.bytesToSlice(s.b)
 		if sl.len == 0 {
 			return Ptr{}
 		}
-		in.elemOwner[sl.arr.sub[0]] = elemRef{sl.arr, 0}
-		return Ptr{sl.arr.sub[0]}
+		in.elemOwner[sl.arr.at(0)] = elemRef{sl.arr, 0}
+		return Ptr{sl.arr.at(0)}
 	case "Slice": // unsafe.Slice(ptr, len)
 		p := args[0].(Ptr)
 		n := in.concretizeInt(args[1].(*sym.Term), "unsafe.Slice len")
@@ -223,6 +223,9 @@ func (in *Interp) elemRun(p Ptr, n int) []*Cell {
 		}
 		panic(unmodelled{"unsafe pointer arithmetic over untracked pointer"})
 	}
+	for i := 0; i < n; i++ {
+		ref.arr.at(ref.off + i)
+	}
 	return ref.arr.sub[ref.off : ref.off+n]
 }
 
@@ -238,7 +241,7 @@ func (in *Interp) appendVals(s Slice, add []Value, et types.Type) Slice {
 	need := s.len + len(add)
 	if s.arr != nil && need <= s.cap {
 		for i, v := range add {
-			in.store(s.arr.sub[s.off+s.len+i], in.copyVal(v))
+			in.store(s.arr.at(s.off+s.len+i), in.copyVal(v))
 		}
 		return Slice{arr: s.arr, off: s.off, len: need, cap: s.cap}
 	}
@@ -256,10 +259,10 @@ func (in *Interp) appendVals(s Slice, add []Value, et types.Type) Slice {
 	z := in.zero(et)
 	arr := in.newArrayCell(newcap, z)
 	for i := 0; i < s.len; i++ {
-		in.store(arr.sub[i], in.load(s.arr.sub[s.off+i]))
+		in.store(arr.at(i), in.load(s.arr.at(s.off+i)))
 	}
 	for i, v := range add {
-		in.store(arr.sub[s.len+i], in.copyVal(v))
+		in.store(arr.at(s.len+i), in.copyVal(v))
 	}
 	return Slice{arr: arr, off: 0, len: need, cap: newcap}
 }
